@@ -34,6 +34,8 @@ def _world(r):
     names = {'l': gen.host_list_spec(r, 1, 4, depth=1), 'd': gen.host_dict_spec(r, 1, 3, depth=1)}
     if r.random() < 0.6:
         names['n'] = [gen.host_list_spec(r, 1, 3, depth=0), gen.host_dict_spec(r, 1, 2, depth=0)]
+    if r.random() < 0.3:
+        names['l2'] = {'alias': 'l'}        # the host hands the same list to the program under a second name
     w = {'names': names, 'host_fns': ['keep']}
     if r.random() < 0.25:
         w['uncopyable'] = True       # the host also supplies a list holding an object copy.deepcopy rejects (a lock)
